@@ -345,7 +345,7 @@ func main() {
 	q := int64(r.Pick(1, 10))
 	for _, k := range []string{"Connect:ok", "Connect:exists", "Connect:dial-error", "Connect:pool-closed", "Disconnect:ok", "Disconnect:pool-closed",
 		"SendMessage:ok", "SendMessage:not-connected", "SendMessage:pool-closed", "BroadcastMessage:ok", "BroadcastMessage:pool-closed",
-		"GetConnections:ok", "GetConnection:ok", "Size:ok", "Size:pool-closed", "SendPings:ok", "GetStaleConnections:ok", "ListeningAddress:ok",
+		"GetConnections:ok", "GetConnection:ok", "IsMaxOutgoingDefaultConnectionsReached:ok", "Size:ok", "Size:pool-closed", "SendPings:ok", "GetStaleConnections:ok", "ListeningAddress:ok",
 		"peer.dial:ok", "peer.close:ok"} {
 		r.Floor("op."+k, 5*q)
 	}
